@@ -389,6 +389,12 @@ type VerifyCase struct {
 	Source   string `json:"source"`   // field256 | field512 | best256 | best512 | bestboth | hasher256 | hasher512
 	Recorded string `json:"recorded"` // true | other | nibble | truncated-even | truncated-odd | otheralgo | upper
 	Which    int    `json:"which"`    // which nibble / how much truncated
+	// SizeDelta: the entry's recorded Size differs from the stream's length by this much (the
+	// statement makes the digest the criterion, not the size column). Extra: the stream is the
+	// recorded content followed by this many further bytes (digest and Size recorded for the
+	// content alone) - must be rejected.
+	SizeDelta int `json:"sizeDelta,omitempty"`
+	Extra     int `json:"extra,omitempty"`
 }
 
 func genVerifyCase(t *rapid.T) VerifyCase {
@@ -396,12 +402,14 @@ func genVerifyCase(t *rapid.T) VerifyCase {
 	return VerifyCase{Data: d, Cuts: genCuts(t, "cut", len(d)),
 		Source:   rapid.SampledFrom([]string{"field256", "field512", "best256", "best512", "bestboth", "hasher256", "hasher512", "hashermd5", "hashersha1"}).Draw(t, "source"),
 		Recorded: rapid.SampledFrom([]string{"true", "true", "other", "nibble", "nibble", "truncated-even", "truncated-odd", "otheralgo", "upper"}).Draw(t, "recorded"),
-		Which:    rapid.IntRange(0, 127).Draw(t, "which")}
+		Which:     rapid.IntRange(0, 127).Draw(t, "which"),
+		SizeDelta: rapid.SampledFrom([]int{0, 0, 0, 0, -1, 1, -5, 100, -1000000}).Draw(t, "sizeDelta"),
+		Extra:     rapid.SampledFrom([]int{0, 0, 0, 0, 1, 2, 64, 4096}).Draw(t, "extra")}
 }
 
 var specC12Verify = Register(&Spec[VerifyCase]{
 	Prop: "C12", Name: "verify",
-	Rule: "(content, recorded hash) pairs; the entry comes from a Checksums-Sha256 / Checksums-Sha512 field parsed into []SHA256FileHash / []SHA512FileHash, from control.BestChecksums with only the 256 field, only the 512 field or both present (via Checksums()), or from FileHashFromHasher over any of the four hashers (md5, sha1, sha256, sha512); the recorded hash is the true digest, the digest of other content, one flipped nibble, truncated (even / odd length), the other algorithm's digest of the same content, or upper-case hex. Oracle: the entry's Algorithm is that of the field it came from; writing the content in chunks and Close() returns nil iff digest_{entry algorithm}(content) == recorded hash (a malformed hex string may already be rejected by Verifier()). An entry built from an md5 or sha1 hasher is an entry built from a hasher like any other (Verifier() used to end the process with log.Fatalf for it - F52); md5/sha1 entries parsed from Files / Checksums-Sha1 fields are not named by the statement and not generated. Non-trivial: hash wrong in exactly one nibble, right under the wrong algorithm, or true with content in >= 2 chunks; distinct by case.",
+	Rule: "(content, recorded hash) pairs; the entry comes from a Checksums-Sha256 / Checksums-Sha512 field parsed into []SHA256FileHash / []SHA512FileHash, from control.BestChecksums with only the 256 field, only the 512 field or both present (via Checksums()), or from FileHashFromHasher over any of the four hashers (md5, sha1, sha256, sha512); the recorded hash is the true digest, the digest of other content, one flipped nibble, truncated (even / odd length), the other algorithm's digest of the same content, or upper-case hex; the entry's Size column equals the stream length or is off by -1, +1, -5, +100 or far less, and in some cases the stream is the recorded content followed by 1..4096 further bytes. Oracle (the digest decides, not the size column): the entry's Algorithm is that of the field it came from; writing the content in chunks and Close() returns nil iff digest_{entry algorithm}(content) == recorded hash (a malformed hex string may already be rejected by Verifier()). An entry built from an md5 or sha1 hasher is an entry built from a hasher like any other (Verifier() used to end the process with log.Fatalf for it - F52); md5/sha1 entries parsed from Files / Checksums-Sha1 fields are not named by the statement and not generated. Non-trivial: hash wrong in exactly one nibble, right under the wrong algorithm, or true with content in >= 2 chunks; distinct by case.",
 	Check: func(c VerifyCase, r *Recorder) error {
 		algo := "sha256"
 		switch c.Source {
@@ -437,13 +445,22 @@ var specC12Verify = Register(&Spec[VerifyCase]{
 		case "upper":
 			rec = strings.ToUpper(trueHex)
 		}
-		chunks := chunksOf(c.Data, c.Cuts)
+		stream := c.Data
+		recSize := len(c.Data) + c.SizeDelta
+		if recSize < 0 {
+			recSize = 0
+		}
+		if c.Extra > 0 && c.Recorded == "true" {
+			// content + trailing bytes under the digest of the content alone
+			stream = append(append([]byte{}, c.Data...), bytes.Repeat([]byte{'T'}, c.Extra)...)
+		}
+		chunks := chunksOf(stream, c.Cuts)
 		nt := c.Recorded == "nibble" || c.Recorded == "otheralgo" || (c.Recorded == "true" && len(chunks) >= 2 && len(c.Data) > 0)
 		r.Case(jsonKey(c), nt, "source:"+c.Source, "recorded:"+c.Recorded)
 		if nt {
 			r.Sample(map[string]interface{}{"len": len(c.Data), "source": c.Source, "recorded": c.Recorded, "hash": rec})
 		}
-		line := fmt.Sprintf(" %s %d file.tar.gz\n", rec, len(c.Data))
+		line := fmt.Sprintf(" %s %d file.tar.gz\n", rec, recSize)
 		var fh control.FileHash
 		switch c.Source {
 		case "field256":
@@ -466,7 +483,7 @@ var specC12Verify = Register(&Spec[VerifyCase]{
 				doc = "Checksums-Sha512:\n" + line
 			} else {
 				// both present: the selector may pick either, each must verify under its own algorithm
-				doc = "Checksums-Sha256:\n" + line + "Checksums-Sha512:\n" + fmt.Sprintf(" %s %d file.tar.gz\n", trueDigest("sha512", c.Data), len(c.Data))
+				doc = "Checksums-Sha256:\n" + line + "Checksums-Sha512:\n" + fmt.Sprintf(" %s %d file.tar.gz\n", trueDigest("sha512", c.Data), recSize)
 			}
 			var b best
 			if err := control.Unmarshal(&b, strings.NewReader(doc)); err != nil {
@@ -496,14 +513,15 @@ var specC12Verify = Register(&Spec[VerifyCase]{
 				return errf("FileHashFromHasher(%s).Hash = %s, true digest %s", algo, fh.Hash, trueHex)
 			}
 			fh.Hash = rec // then tamper as requested
+			fh.Size = int64(recSize)
 		}
 		if fh.Algorithm != algo {
 			return errf("entry from %s is tagged with algorithm %q, want %q", c.Source, fh.Algorithm, algo)
 		}
-		if fh.Size != int64(len(c.Data)) || fh.Filename != "file.tar.gz" {
-			return errf("entry from %s = %+v, want size %d name file.tar.gz", c.Source, fh, len(c.Data))
+		if fh.Size != int64(recSize) || fh.Filename != "file.tar.gz" {
+			return errf("entry from %s = %+v, want size %d name file.tar.gz", c.Source, fh, recSize)
 		}
-		wantOK := strings.EqualFold(rec, trueHex) // hex decoding is case-insensitive
+		wantOK := strings.EqualFold(rec, trueHex) && len(stream) == len(c.Data) // hex decoding is case-insensitive; trailing bytes change the digest
 		v, err := fh.Verifier()
 		if err != nil {
 			if wantOK {
